@@ -7,9 +7,10 @@ Local Open Scope Z_scope.
 
 (* each supported statement becomes the command the language prescribes, or is refused exactly when the specification
    refuses it: parser action -> dictionary -> SB21Helper handler -> command constructor agrees with the direct
-   specification for every statement outside the finding classes (blob load, reset, call, size suffix) *)
+   specification for every statement outside the finding classes (blob load, reset, call, size suffix, encrypt at an
+   offset inside the key blob) *)
 Theorem stmt_sem_except_known :
   forall (c : pctx) (fs : files) (kbs : keyblobs) (s : stmt),
-    sclean s = true -> to_opt (compile_impl c fs kbs s) = stmt_spec c fs kbs s.
+    sclean s = true -> enc_at_start c kbs s = true -> to_opt (compile_impl c fs kbs s) = stmt_spec c fs kbs s.
 Proof. exact BdProofs.stmt_sem_except_known. Qed.
 Print Assumptions stmt_sem_except_known.
